@@ -1048,6 +1048,7 @@ fn implement_reprc_struct(
     let local_file_version = quote_spanned! { defspan => local_file_version};
     //let WithSchema = quote_spanned! { defspan => _savefile::prelude::WithSchema};
     let mut min_safe_version = 0;
+    let mut max_safe_version = std::u32::MAX;
     let mut packed_outputs = Vec::new();
     let mut reprc_outputs = Vec::new();
 
@@ -1100,7 +1101,15 @@ fn implement_reprc_struct(
             reprc_outputs
                 .push(quote_spanned!( span => <#field_type as #reprc>::repr_c_optimization_safe(#local_file_version).is_yes()));
         } else {
-            min_safe_version = min_safe_version.max(verinfo.min_safe_version());
+            if !removed.is_removed() && field_to_version != std::u32::MAX {
+                // A field which is still present in memory, but which is only part of the
+                // serialized format for versions field_from_version..=field_to_version.
+                // For any other version, the memory layout differs from the disk format.
+                min_safe_version = min_safe_version.max(field_from_version);
+                max_safe_version = max_safe_version.min(field_to_version);
+            } else {
+                min_safe_version = min_safe_version.max(verinfo.min_safe_version());
+            }
 
             if !removed.is_removed() {
                 reprc_outputs.push(
@@ -1138,7 +1147,7 @@ fn implement_reprc_struct(
                 let local_file_version = file_version;
                 #packed_storage PACKED : bool = true #( && #packed_outputs)*;
                 #require_packed
-                if file_version >= #min_safe_version && PACKED #( && #reprc_outputs)*{
+                if file_version >= #min_safe_version && file_version <= #max_safe_version && PACKED #( && #reprc_outputs)*{
                     unsafe { #isreprc::yes() }
                 } else {
                     #isreprc::no()
@@ -1298,6 +1307,7 @@ fn derive_reprc_new(input: DeriveInput) -> TokenStream {
             let mut conditions = vec![];
 
             let mut min_safe_version: u32 = 0;
+            let mut max_safe_version: u32 = std::u32::MAX;
 
             let mut unique_field_types = HashSet::new();
 
@@ -1356,7 +1366,7 @@ fn derive_reprc_new(input: DeriveInput) -> TokenStream {
                     };
                 }
 
-                for attr in attrs {
+                for (attr, field_type) in attrs.into_iter().zip(field_types.iter()) {
                     let verinfo = parse_attr_tag(attr);
                     if verinfo.ignore {
                         if opt_in_fast {
@@ -1367,7 +1377,13 @@ fn derive_reprc_new(input: DeriveInput) -> TokenStream {
                             return implement_reprc_hardcoded_false(name.clone(), &input);
                         }
                     }
-                    min_safe_version = min_safe_version.max(verinfo.min_safe_version());
+                    if !check_is_remove(field_type).is_removed() && verinfo.version_to != std::u32::MAX {
+                        // Field still present in memory, but only serialized for a closed range of versions.
+                        min_safe_version = min_safe_version.max(verinfo.version_from);
+                        max_safe_version = max_safe_version.min(verinfo.version_to);
+                    } else {
+                        min_safe_version = min_safe_version.max(verinfo.min_safe_version());
+                    }
                 }
             }
 
@@ -1431,7 +1447,7 @@ fn derive_reprc_new(input: DeriveInput) -> TokenStream {
 
                         #packed_constraints
 
-                        if file_version >= #min_safe_version #( && #reprc_condition)* {
+                        if file_version >= #min_safe_version && file_version <= #max_safe_version #( && #reprc_condition)* {
                             unsafe { #isreprc::yes() }
                         } else {
                             #isreprc::no()
